@@ -1847,6 +1847,15 @@ func (query *Query) exec() (result any, err error) {
 				if err != nil {
 					return nil, err
 				}
+				// what the copy deferred is this query's to finish: the post-processors it
+				// registered (they take the `<-` marker out of `*` rows and resolve ASYNC
+				// slots) and the asynchronous calls it started
+				query.postProcessors = copy.postProcessors
+				query.wg.Add(1)
+				go func() {
+					copy.wg.Wait()
+					query.wg.Done()
+				}()
 				slice = append(slice, rs)
 			}
 		case Map:
